@@ -73,7 +73,8 @@ class Documenter(object):
         """The :code:`.. module::` directive that defines the module's name."""
 
         # We need a string stream of some kind, FileStream is easiest
-        self.input_stream: InputStream = FileStream(file)
+        # CMake source files are UTF-8, antlr4's FileStream would default to ASCII
+        self.input_stream: InputStream = FileStream(file, encoding="utf-8")
         """The string stream used to read the CMake file."""
 
         # Convert those strings into tokens and build a stream from those
